@@ -408,6 +408,20 @@ func (f *vfRedisFront) handle(c net.Conn) {
 				}
 			case "stall":
 				time.Sleep(flt.Stall)
+				// Did the client give up meanwhile? It closes the connection when its read timeout fires. On a starved box the
+				// timeout may fire late (or not before the reply is there): then the stalled command was simply answered
+				// late, with intact data, and is not a failed operation. Marked so that oracles can tell the two apart.
+				_ = c.SetReadDeadline(time.Now().Add(2 * time.Millisecond))
+				_, perr := cbr.Peek(1)
+				_ = c.SetReadDeadline(time.Time{})
+				if perr != nil {
+					if ne, ok := perr.(net.Error); !ok || !ne.Timeout() {
+						return // client gone: reply never delivered
+					}
+				}
+				h.mu.Lock()
+				cmd.Fault = "stall-delivered"
+				h.mu.Unlock()
 			}
 		}
 		h.setReply(cmd, vfTrunc(strings.SplitN(string(rep), "\r\n", 2)[0], 40))
